@@ -146,7 +146,8 @@ func (p *printer) print(t *Term, depth int) {
 	}
 }
 
-const Prelude = `(define-fun gdiv ((a Int) (b Int)) Int
+const Prelude = `(set-logic ALL)
+(define-fun gdiv ((a Int) (b Int)) Int
   (ite (>= a 0) (ite (> b 0) (div a b) (- (div a (- b))))
                 (ite (> b 0) (- (div (- a) b)) (div (- a) (- b)))))
 (define-fun gmod ((a Int) (b Int)) Int (- a (* b (gdiv a b))))
